@@ -4,6 +4,8 @@ package c07
 import (
 	"bytes"
 	"context"
+	"encoding/base64"
+	"encoding/json"
 	"errors"
 	"fmt"
 	"testing"
@@ -599,4 +601,77 @@ func TestMutationPrograms(t *testing.T) {
 // FuzzDecryptMutations: the native fuzzer drives the same mutation programs (thorough tier).
 func FuzzDecryptMutations(f *testing.F) {
 	f.Fuzz(rapid.MakeFuzz(propMutation))
+}
+
+// TestArbitraryJSONRecords: records arrive as JSON in practice. Arbitrary JSON documents
+// (wrong types, missing fields, huge numbers, nested junk, genuine records with one field
+// replaced) are unmarshalled the way an application would and, when that succeeds, decrypted.
+func TestArbitraryJSONRecords(t *testing.T) {
+	kit.Check(t, 20000, 1600000, func(t *rapid.T) {
+		if sharedFx == nil {
+			sharedFx = newFixture()
+		}
+		fx := sharedFx
+		g := fx.pool[rapid.IntRange(0, len(fx.pool)-1).Draw(t, "base")]
+		good, _ := json.Marshal(g.drr)
+		var doc map[string]any
+		_ = json.Unmarshal(good, &doc)
+		junk := func(label string) any {
+			switch rapid.IntRange(0, 9).Draw(t, label) {
+			case 0:
+				return nil
+			case 1:
+				return rapid.Float64().Draw(t, label+"f")
+			case 2:
+				return rapid.StringN(0, 80, -1).Draw(t, label+"s")
+			case 3:
+				return []any{1, "x", nil}
+			case 4:
+				return map[string]any{"KeyId": rapid.StringN(0, 40, -1).Draw(t, label+"id"), "Created": rapid.Int64().Draw(t, label+"c")}
+			case 5:
+				return true
+			case 6:
+				return rapid.Int64().Draw(t, label+"i")
+			case 7:
+				return base64.StdEncoding.EncodeToString(rapid.SliceOfN(rapid.Byte(), 0, 100).Draw(t, label+"b"))
+			case 8:
+				return map[string]any{}
+			default:
+				return "!!not base64!!"
+			}
+		}
+		path := rapid.SampledFrom([]string{"Key", "Data", "Key.Created", "Key.Key", "Key.ParentKeyMeta", "Key.ParentKeyMeta.KeyId", "Key.ParentKeyMeta.Created", "Key.Revoked", "extra", "whole"}).Draw(t, "path")
+		key, _ := doc["Key"].(map[string]any)
+		pm, _ := key["ParentKeyMeta"].(map[string]any)
+		var raw []byte
+		switch path {
+		case "whole":
+			raw, _ = json.Marshal(junk("doc"))
+		case "Key", "Data", "extra":
+			doc[path] = junk("v")
+			raw, _ = json.Marshal(doc)
+		case "Key.Created", "Key.Key", "Key.ParentKeyMeta", "Key.Revoked":
+			key[path[4:]] = junk("v")
+			raw, _ = json.Marshal(doc)
+		default:
+			pm[path[len("Key.ParentKeyMeta."):]] = junk("v")
+			raw, _ = json.Marshal(doc)
+		}
+		var in appencryption.DataRowRecord
+		var out []byte
+		var err error
+		var p any
+		func() {
+			defer func() { p = recover() }()
+			if err = json.Unmarshal(raw, &in); err != nil {
+				return
+			}
+			out, err = fx.warm[g.part].Decrypt(ctx, in)
+		}()
+		kit.Rec.Case("json|"+path+"|"+string(raw), true, func() any { return map[string]any{"mutated_path": path, "json": string(trunc(raw)), "error": fmt.Sprint(err)} })
+		if msg := fx.judge("JSON record with "+path+" replaced", in, out, err, p); msg != "" {
+			kit.Rec.Violation(msg)
+			t.Fatalf("C07 violated: %s\n  json: %s", msg, raw)
+		}
+	})
 }
